@@ -18,6 +18,8 @@ func init() {
 
 func checkC10(c *Ctx) {
 	p := c.P
+	// "only rows matching the chain's conditions and the model value's primary key change" (same rule as C16.key-all)
+	checkKeyAll(c, c.Rule("C10.key-all", "an update through Model(x) is pinned to x's row through every primary field", 1))
 	stmtT := p.Named(pkgGorm, "Statement")
 	saoc := p.Method(stmtT, "SelectAndOmitColumns")
 	valuesT := p.Named(pkgClause, "Values")
